@@ -118,6 +118,15 @@ def gen_case(rng, params, index):
         L += body
         L.append("}")
         files["proj/%s/%s.qml" % (c["dir"], n)] = "\n".join(L) + "\n"
+    # the same component name in two directories: which one wins where both are visible is not stated by the property,
+    # but it must not depend on the schedule; where exactly one is visible it is that one
+    dups = []
+    if ndirs >= 2 and rng.chance(0.35):
+        d1, d2 = rng.sample(dirs, 2)
+        b1, b2 = rng.sample(sorted(QT_BASES), 2)
+        dups = [{"dir": d1, "super": b1}, {"dir": d2, "super": b2}]
+        for x in dups:
+            files["proj/%s/Dup.qml" % x["dir"]] = "import qmluic.QtWidgets\n%s {\n}\n" % x["super"]
     # noise
     for d in dirs:
         if rng.chance(0.4):
@@ -170,13 +179,21 @@ def gen_case(rng, params, index):
                 L.append("        QGroupBox { QHBoxLayout { %s } }" % line)   # first use in a nested position
             else:
                 L.append("        " + line)
+        seen = [x for x in dups if x["dir"] == d or x["dir"] in dimports[d]]
+        extra, ambiguous = [], []
+        if seen and rng.chance(0.7):
+            L.append("        Dup { id: dup0 }")
+            if len(seen) == 1:
+                extra.append(["Dup", seen[0]["super"]])
+            else:
+                ambiguous.append("Dup")
         L.append("        QLabel { text: %s }" % ('"%s"' % name))
         L.append("    }")
         L.append("}")
         rel = "%s/%s.qml" % (d, name)
         files["proj/" + rel] = "\n".join(L) + "\n"
         sources.append(rel)
-        expect[rel] = {"custom": sorted(set(used)), "props": props}
+        expect[rel] = {"custom": sorted(set(used)), "props": props, "extra": extra, "ambiguous": ambiguous}
     # negative documents: use a cyclic component; checked one per invocation
     negatives = []
     for n in tails + cyc[:2]:
@@ -379,7 +396,14 @@ def check_model(case, s, obs, desc):
     got = []
     for cw in root.findall("./customwidgets/customwidget"):
         got.append((cw.findtext("class"), cw.findtext("extends"), cw.findtext("header")))
-    want = sorted((n, comps[n]["super"], header_name(n, case["no_lower"])) for n in exp["custom"])
+    want = sorted([(n, comps[n]["super"], header_name(n, case["no_lower"])) for n in exp["custom"]] +
+                  [(n, sup, header_name(n, case["no_lower"])) for n, sup in exp.get("extra", [])])
+    amb = set(exp.get("ambiguous", []))
+    if amb:
+        _seen = [g for g in got if g[0] in amb]
+        if len(_seen) != len(amb):
+            out.append(V("model-agreement", "c18:customwidgets-differ", "%s: %s instantiates %s but <customwidgets> lists %s" % (desc, s, sorted(amb), sorted(got))))
+        got = [g for g in got if g[0] not in amb]
     if len(got) != len(set(g[0] for g in got)):
         out.append(V("model-agreement", "c18:custom-widget-listed-twice", "%s: %s lists a class more than once: %s" % (desc, s, got)))
     if sorted(set(got)) != want:
